@@ -146,6 +146,16 @@ CHECKS["C04"] = dict(
          "'inconclusive (lowered-threshold only)' if it does not reproduce there. Uses the guarded hook VECTORIZERS_VERIF_COO_LIMIT.",
     ref="7/C04")
 
+CHECKS["C02"] = dict(
+    technique="property-based testing (Hypothesis), differential: fit_transform on one instance vs fit().transform on a twin built from deep-copied parameters, for 27 estimator families",
+    text="Every estimator family gets generated parameters that select code paths (metric, input_method, tiny memory_size, kernels, windows, "
+         "masks, n_iter, return_type, vocabulary caps, SVD algorithm, random_state) and a training input; fit must return the estimator and "
+         "fit_transform(X) must equal fit(X).transform(X): exactly for count / encoding outputs, rtol 1e-5 for float32 co-occurrence values, "
+         "rtol 1e-3 for SVD-compressed outputs when n_components >= rank (the smaller-than-rank regime is generated and labelled, not "
+         "asserted). Exploration.",
+    note="Clean rejections (the same ValueError / NotImplementedError on both paths) are accepted; any other exception on either path is reported.",
+    ref="7/C02")
+
 PENDING_REASON = "check not built yet in this revision of /verif (planned, see DESIGN.md section 7)"
 
 
